@@ -93,9 +93,11 @@ def contribution(f, value):
         for e in elems:
             groups.append(_tmpl_tokens(base, name, e) if templated else ([base] if base else []) + [e])
         out = [sum(groups, [])]
-        if sep.strip():
-            # the separator is not mentioned for the repeated form; the test-suite pins it being
-            # appended to every element group but the last (`-v aaa, -v bbb, -v ccc`): accept both
+        if sep.strip() and kind == "list":
+            # the separator is not mentioned for the repeated form; for list[...] fields the test-suite pins
+            # it being appended to every element group but the last (`-v aaa, -v bbb, -v ccc`): accept both.
+            # (Only there: for a MultiInputObj the elements are formatted one by one and reach the command
+            # unchanged, as the property's text says.)
             g2 = [list(g) for g in groups]
             for g in g2[:-1]:
                 g[-1] = g[-1] + sep
@@ -384,7 +386,7 @@ def strictly_inside(path, directory):
     """lexically normalised `path` denotes something strictly below `directory`"""
     p = os.path.normpath(os.fspath(path))
     d = os.path.normpath(os.fspath(directory))
-    return p != d and os.path.commonpath([p, d]) == d and os.path.isabs(p)
+    return os.path.isabs(p) and p != d and os.path.commonpath([p, d]) == d  # (a relative path is not inside)
 
 
 def ext_readings(filename):
